@@ -348,6 +348,16 @@ theorem step_cover {w s l s'} (hs : step w s l = some s') (hl : l.isOpEdge = fal
         exact cover_frame rfl (by simp [slotsC, hq, qC, cSlot]) (by simp [slotsP, hq, qP, pSlot])
       · simp at hs
     · simp at hs
+  case extPush => unfold stepExtPush at hs; cover_crush hs
+  case extBegin b m =>
+    unfold stepExtBegin at hs
+    split at hs
+    · rename_i b' tok rest hp hq
+      split at hs
+      · simp only [Option.some.injEq] at hs; subst hs
+        exact cover_frame rfl (by simp [slotsC, hq, qC, cSlot]) (by simp [slotsP, hq, qP, pSlot])
+      · simp at hs
+    · simp at hs
   case cbBegin cb =>
     unfold stepCbBegin at hs
     (repeat' (split at hs)) <;>
